@@ -1,6 +1,6 @@
 CONSTANTS WeekLen = 2016  Accept = 432  RotTrigger = 3200  CatchUpBound = 4000  CapPct = 135
  Defects = {}
- Strict = {"Rotate", "QueryStats", "Start", "RecvReport", "ImpactSet"}
+ Strict = {"Rotate", "QueryStats", "QueryRecent", "Start", "RecvReport", "ImpactSet"}
  InvSel = {"ArchiveContiguous", "ArchiveSigned", "ArchiveImmutable", "IndexInBounds"}
  DiagLine = @DiagLine@
 SPECIFICATION TSpec
